@@ -41,6 +41,19 @@ class sut:
         return False
 
 
+class harness:
+    """`with locks.harness():` -- code of the harness that runs inside a callback from the system under test
+    (the scheduler parking a client): primitives created here are real."""
+
+    def __enter__(self):
+        self.saved = getattr(_tls, 'depth', 0)
+        _tls.depth = 0
+
+    def __exit__(self, *exc):
+        _tls.depth = self.saved
+        return False
+
+
 def _task():
     sim = mon._SIM
     if sim is None:
